@@ -691,7 +691,7 @@ pub fn clone_probe<const N: usize>(cfg: &HxCfg, g: &Sodg<N>, m: &Model, hist: &d
     let snap = orig.verif_snapshot();
     let impl_pos = snap.next_v;
     for op in ops {
-        if matches!(op, Op::CloneSwap | Op::ReloadSwap) || !m.enabled(op, impl_pos) {
+        if matches!(op, Op::CloneSwap | Op::CloneFromSwap | Op::ReloadSwap) || !m.enabled(op, impl_pos) {
             continue;
         }
         let Ok(mut c2) = guarded(|| orig.clone()) else { continue };
@@ -706,7 +706,7 @@ pub fn clone_probe<const N: usize>(cfg: &HxCfg, g: &Sodg<N>, m: &Model, hist: &d
     let csnap = c.verif_snapshot();
     let mut o = orig;
     for op in ops {
-        if matches!(op, Op::CloneSwap | Op::ReloadSwap | Op::Merge(..) | Op::MergeFail(..)) || !m.enabled(op, impl_pos) {
+        if matches!(op, Op::CloneSwap | Op::CloneFromSwap | Op::ReloadSwap | Op::Merge(..) | Op::MergeFail(..)) || !m.enabled(op, impl_pos) {
             continue;
         }
         if crate::real::apply_real(&mut o, op).is_err() {
